@@ -394,7 +394,8 @@ class CallMixin:
         """b is a permutation of a: same length, same value of every fold (sum / all), same members."""
         st.assume(z3.Length(a.t) == z3.Length(b.t))
         for f in self.folds_for(a.s):
-            st.assume(f.f(a.t) == f.f(b.t))
+            if f.kind != "cat":      # sums and conjunctions do not depend on order; concatenations do
+                st.assume(f.f(a.t) == f.f(b.t))
         perm = ufunc("Perm", a.s, a.s, BOOL)
         st.assume(perm(a.t, b.t))
         st.meta.setdefault("perms", [])
@@ -1034,6 +1035,10 @@ class CallMixin:
             if isinstance(v.s, Seq):
                 nv = self.fresh(v.s, "rev", s1)
                 self.assume_perm(s1, v, nv)
+                rv = self.spec.rev.get(v.s.name)
+                if rv is not None:
+                    s1.assume(nv.t == rv(v.t))
+                    s1.assume(rv(nv.t) == v.t)
                 i = INT.fresh("i")
                 s1.assume(z3.ForAll([i.t], z3.Implies(z3.And(i.t >= 0, i.t < z3.Length(v.t)),
                                                       nv.t[i.t] == v.t[z3.Length(v.t) - 1 - i.t])))
